@@ -14,7 +14,7 @@
    - reset_contact: clears slot conid < nacon[0] unless (mask given, worldid >= 0, world not
                     selected); a cleared slot gets worldid 0, geom (0,0), efc_address -1
    - reset_xfrc_applied also clears cvel; reset_sleep tests the mocap id of the body's root
-   - launches are sequential, in io.py's order: xfrc_applied, M, mocap, contact, sleep,
+   - launches are sequential, in io.py's order: xfrc_applied, M, efc_J, mocap, contact, sleep,
      nworld, then sleep.update_sleep when the SLEEP enable bit is set.
    Per-world kernels write disjoint cells per thread, so a launch over (nworld, n, ...) is
    modelled world by world; the contact kernel is a loop over conid in ascending order
@@ -55,6 +55,7 @@ Record MModel := {
   nq : Z; nv : Z; nu : Z; na : Z; nbody : Z; ntree : Z; neq : Z;
   nuserdata : Z; nsensordata : Z; nmocap : Z; nhistory : Z;
   nM : Z;                 (* d.M.shape[1] *)
+  nJr : Z; nJc : Z;       (* d.efc.J.shape[1], d.efc.J.shape[2] (dense: njmax_pad x nv_pad, sparse: 1 x njmax_nnz) *)
   nefcaddress : Z;        (* d.contact.efc_address.shape[1] *)
   nfev : Z;               (* 6 when contact.flex/elem/vert are allocated (nflex > 0), else 0 *)
   minawake : Z;           (* types.MJ_MINAWAKE *)
@@ -91,6 +92,7 @@ Record World := {
   w_body_awake_ind : list Z; w_dof_awake_ind : list Z;
   w_cvel : list (list Z);        (* nbody x 6 *)
   w_cdof_dot : list (list Z);    (* nv x 6 *)
+  w_efc_J : list (list Z);       (* nJr x nJc: the constraint Jacobian buffer d.efc.J *)
   w_overflow : Z
 }.
 
@@ -144,6 +146,7 @@ Definition fresh_world (m : MModel) : World := {|
   w_body_awake := initial_body_awake m;
   w_body_awake_ind := Zseq (nbody m); w_dof_awake_ind := Zseq (nv m);   (* np.arange *)
   w_cvel := repeat (zeros 6) (Z.to_nat (nbody m)); w_cdof_dot := repeat (zeros 6) (Z.to_nat (nv m));
+  w_efc_J := repeat (zeros (nJc m)) (Z.to_nat (nJr m));
   w_overflow := 0
 |}.
 
@@ -182,7 +185,7 @@ Definition set_xfrc (x : World) (v cv : list (list Z)) : World := {|
   w_energy := w_energy x; w_qacc := w_qacc x; w_act_dot := w_act_dot x; w_sensordata := w_sensordata x; w_M := w_M x;
   w_tree_asleep := w_tree_asleep x; w_tree_awake := w_tree_awake x; w_body_awake := w_body_awake x;
   w_body_awake_ind := w_body_awake_ind x; w_dof_awake_ind := w_dof_awake_ind x;
-  w_cvel := cv; w_cdof_dot := w_cdof_dot x; w_overflow := w_overflow x |}.
+  w_cvel := cv; w_cdof_dot := w_cdof_dot x; w_efc_J := w_efc_J x; w_overflow := w_overflow x |}.
 
 Definition set_M (x : World) (v : list Z) : World := {|
   w_time := w_time x; w_qpos := w_qpos x; w_qvel := w_qvel x; w_act := w_act x; w_history := w_history x;
@@ -193,7 +196,18 @@ Definition set_M (x : World) (v : list Z) : World := {|
   w_energy := w_energy x; w_qacc := w_qacc x; w_act_dot := w_act_dot x; w_sensordata := w_sensordata x; w_M := v;
   w_tree_asleep := w_tree_asleep x; w_tree_awake := w_tree_awake x; w_body_awake := w_body_awake x;
   w_body_awake_ind := w_body_awake_ind x; w_dof_awake_ind := w_dof_awake_ind x;
-  w_cvel := w_cvel x; w_cdof_dot := w_cdof_dot x; w_overflow := w_overflow x |}.
+  w_cvel := w_cvel x; w_cdof_dot := w_cdof_dot x; w_efc_J := w_efc_J x; w_overflow := w_overflow x |}.
+
+Definition set_efcJ (x : World) (v : list (list Z)) : World := {|
+  w_time := w_time x; w_qpos := w_qpos x; w_qvel := w_qvel x; w_act := w_act x; w_history := w_history x;
+  w_qacc_warmstart := w_qacc_warmstart x; w_ctrl := w_ctrl x; w_qfrc_applied := w_qfrc_applied x;
+  w_xfrc_applied := w_xfrc_applied x; w_eq_active := w_eq_active x; w_mocap_pos := w_mocap_pos x; w_mocap_quat := w_mocap_quat x;
+  w_userdata := w_userdata x; w_solver_niter := w_solver_niter x; w_ne := w_ne x; w_nf := w_nf x; w_nl := w_nl x;
+  w_nefc := w_nefc x; w_ntree_awake := w_ntree_awake x; w_nbody_awake := w_nbody_awake x; w_nv_awake := w_nv_awake x;
+  w_energy := w_energy x; w_qacc := w_qacc x; w_act_dot := w_act_dot x; w_sensordata := w_sensordata x; w_M := w_M x;
+  w_tree_asleep := w_tree_asleep x; w_tree_awake := w_tree_awake x; w_body_awake := w_body_awake x;
+  w_body_awake_ind := w_body_awake_ind x; w_dof_awake_ind := w_dof_awake_ind x;
+  w_cvel := w_cvel x; w_cdof_dot := w_cdof_dot x; w_efc_J := v; w_overflow := w_overflow x |}.
 
 Definition set_mocap (x : World) (p q : list (list Z)) : World := {|
   w_time := w_time x; w_qpos := w_qpos x; w_qvel := w_qvel x; w_act := w_act x; w_history := w_history x;
@@ -204,7 +218,7 @@ Definition set_mocap (x : World) (p q : list (list Z)) : World := {|
   w_energy := w_energy x; w_qacc := w_qacc x; w_act_dot := w_act_dot x; w_sensordata := w_sensordata x; w_M := w_M x;
   w_tree_asleep := w_tree_asleep x; w_tree_awake := w_tree_awake x; w_body_awake := w_body_awake x;
   w_body_awake_ind := w_body_awake_ind x; w_dof_awake_ind := w_dof_awake_ind x;
-  w_cvel := w_cvel x; w_cdof_dot := w_cdof_dot x; w_overflow := w_overflow x |}.
+  w_cvel := w_cvel x; w_cdof_dot := w_cdof_dot x; w_efc_J := w_efc_J x; w_overflow := w_overflow x |}.
 
 (* sleep-related fields: tree_asleep tree_awake body_awake body_awake_ind dof_awake_ind + 3 counters *)
 Definition set_sleep (x : World) (tas taw baw bind dind : list Z) (nt nb nd : Z) : World := {|
@@ -216,7 +230,7 @@ Definition set_sleep (x : World) (tas taw baw bind dind : list Z) (nt nb nd : Z)
   w_energy := w_energy x; w_qacc := w_qacc x; w_act_dot := w_act_dot x; w_sensordata := w_sensordata x; w_M := w_M x;
   w_tree_asleep := tas; w_tree_awake := taw; w_body_awake := baw;
   w_body_awake_ind := bind; w_dof_awake_ind := dind;
-  w_cvel := w_cvel x; w_cdof_dot := w_cdof_dot x; w_overflow := w_overflow x |}.
+  w_cvel := w_cvel x; w_cdof_dot := w_cdof_dot x; w_efc_J := w_efc_J x; w_overflow := w_overflow x |}.
 
 (* kernel reset_xfrc_applied, dim (nworld, nbody, 6):
    xfrc_applied_out[worldid, bodyid][elemid] = 0.0 ; cvel_out[worldid, bodyid][elemid] = 0.0 *)
@@ -227,6 +241,10 @@ Definition k_xfrc (m : MModel) (_ : Z) (x : World) : World :=
 (* kernel reset_M, dim (nworld, d.M.shape[1]) *)
 Definition k_M (m : MModel) (_ : Z) (x : World) : World :=
   set_M x (cond_map (nM m) ctrue (fun _ _ => 0) 0 (w_M x)).
+
+(* kernel reset_efc_J, dim d.efc.J.shape = (nworld, nJr, nJc): efc_J_out[worldid, rowid, colid] = 0.0 *)
+Definition k_efcJ (m : MModel) (_ : Z) (x : World) : World :=
+  set_efcJ x (cond_map (nJr m) ctrue (fun _ row => cond_map (nJc m) ctrue (fun _ _ => 0) 0 row) [] (w_efc_J x)).
 
 (* kernel reset_mocap, dim (nworld, nbody): scatter body_pos/quat of mocap bodies *)
 Definition scatter_mocap (m : MModel) (row : list (list Z)) (old : list (list Z)) : list (list Z) :=
@@ -300,6 +318,7 @@ Definition k_nworld_w (m : MModel) (w : Z) (x : World) : World :=
   w_body_awake_ind := w_body_awake_ind x; w_dof_awake_ind := w_dof_awake_ind x;
   w_cvel := w_cvel x;
   w_cdof_dot := cond_map (nq m) vguard (fun _ _ => zeros 6) [] (w_cdof_dot x);
+  w_efc_J := w_efc_J x;
   w_overflow := 0
   |}.
 (* `if worldid == 0: nacon_out[0] = 0` is executed by thread 0 iff it does not return early *)
@@ -336,7 +355,7 @@ Definition update_sleep (m : MModel) (d : Data) : Data :=
    model pass the cast mask. *)
 Definition reset_kernels (m : MModel) (mask : option (list bool)) (d : Data) : Data :=
   let d1 := map_worlds mask (k_xfrc m) d in
-  let d2 := map_worlds mask (k_M m) d1 in
+  let d2 := map_worlds mask (k_efcJ m) (map_worlds mask (k_M m) d1) in
   let d3 := map_worlds mask (k_mocap m) d2 in
   let d4 := k_contact m mask d3 in
   let d5 := map_worlds mask (k_sleep m) d4 in
@@ -371,7 +390,7 @@ Definition k_keyframe_w (m : MModel) (key : Z) (x : World) : World := {|
   w_energy := w_energy x; w_qacc := w_qacc x; w_act_dot := w_act_dot x; w_sensordata := w_sensordata x; w_M := w_M x;
   w_tree_asleep := w_tree_asleep x; w_tree_awake := w_tree_awake x; w_body_awake := w_body_awake x;
   w_body_awake_ind := w_body_awake_ind x; w_dof_awake_ind := w_dof_awake_ind x;
-  w_cvel := w_cvel x; w_cdof_dot := w_cdof_dot x; w_overflow := w_overflow x
+  w_cvel := w_cvel x; w_cdof_dot := w_cdof_dot x; w_efc_J := w_efc_J x; w_overflow := w_overflow x
 |}.
 
 Definition reset_data_keyframe (m : MModel) (key : KeyArg) (d : Data) : option Data :=
@@ -406,7 +425,7 @@ Definition flat_world (x : World) : list Z :=
   ++ [w_solver_niter x; w_ne x; w_nf x; w_nl x; w_nefc x; w_ntree_awake x; w_nbody_awake x; w_nv_awake x]
   ++ w_energy x ++ w_qacc x ++ w_act_dot x ++ w_sensordata x ++ w_M x ++ w_tree_asleep x ++ w_tree_awake x
   ++ w_body_awake x ++ w_body_awake_ind x ++ w_dof_awake_ind x ++ concat (w_cvel x) ++ concat (w_cdof_dot x)
-  ++ [w_overflow x].
+  ++ concat (w_efc_J x) ++ [w_overflow x].
 Definition flat_slot (c : Slot) : list Z :=
   [c_worldid c] ++ c_geom c ++ [c_dim c; c_type c; c_gcid c] ++ c_efc c ++ c_flt c ++ c_fev c.
 Definition flat_data (d : option Data) : list Z :=
@@ -418,7 +437,7 @@ Definition flat_data (d : option Data) : list Z :=
 (* flattening of the static model data (lists are followed by the separator -7) *)
 Definition sep (l : list Z) : list Z := l ++ [-7].
 Definition flat_mmodel (m : MModel) : list Z :=
-  [nq m; nv m; nu m; na m; nbody m; ntree m; neq m; nuserdata m; nsensordata m; nmocap m; nhistory m; nM m;
+  [nq m; nv m; nu m; na m; nbody m; ntree m; neq m; nuserdata m; nsensordata m; nmocap m; nhistory m; nM m; nJr m; nJc m;
    nefcaddress m; nfev m; minawake m; b2z (sleep_enabled m)]
   ++ sep (concat (qpos0 m)) ++ sep (eq_active0 m) ++ sep (body_mocapid m) ++ sep (body_treeid m)
   ++ sep (body_rootid m) ++ sep (dof_bodyid m) ++ sep (concat (concat (body_pos m))) ++ sep (concat (concat (body_quat m)))
